@@ -66,3 +66,34 @@ fn bnd_error_code_filter_2_2() {
 fn bnd_error_code_filter_2_3() {
     filter_case::<2, 3>();
 }
+
+struct ShowRec {
+    marker: u64,
+    shown: u32,
+}
+// one static with a unique marker (see support.rs)
+static mut SHOWN: ShowRec = ShowRec { marker: 0x5EED_0000_0000_0008, shown: 0 };
+fn stub_display_error(_e: &str) {
+    unsafe { SHOWN.shown += 1 };
+}
+
+// @harness id=bnd_error_cap props=C16,C04 kind=bnd tier=quick bound=messages<=4 fns=ErrPrinter::new,ErrPrinter::print stubs=display_error
+// Without a code filter, an error cap N shows min(N, number of messages) messages; no cap shows all of them.
+#[kani::proof]
+#[kani::stub(crate::display_error, stub_display_error)]
+#[kani::unwind(7)]
+fn bnd_error_cap() {
+    let msgs: [Box<str>; 4] = ["".into(), "".into(), "".into(), "".into()];
+    let n: usize = kani::any();
+    kani::assume(n <= 4);
+    let cap: Option<u32> = if kani::any() { Some(kani::any()) } else { None };
+    unsafe { SHOWN.shown = 0 };
+    let p = ErrPrinter::new(cap, None);
+    p.print(msgs[..n].iter(), &[]);
+    let shown = unsafe { SHOWN.shown } as u64;
+    match cap {
+        Some(c) => assert!(shown == core::cmp::min(c as u64, n as u64), "[C16] an error cap N shows at most N messages (and all of them when there are fewer)"),
+        None => assert!(shown == n as u64, "[C16] without a cap every message is shown"),
+    }
+    kani::cover!(cap == Some(2) && n == 4);
+}
